@@ -180,6 +180,12 @@ MUTANTS = [
      "            AddState s;\n            if( TAO_PEGTL_NAMESPACE::match< Rule, A, M, Action, Control >( in, s, st... ) ) {\n               if constexpr( A == apply_mode::action ) {", "            AddState s;\n            if( TAO_PEGTL_NAMESPACE::match< Rule, A, M, Action, Control >( in, s, st... ) ) {\n               if constexpr( true ) {", ["C13"], "add_state delivers success with actions disabled"),
     ("m75-mask-uint-size-minus-one", I + "contrib/internal/peek_mask_uint.hpp",
      "if( in.size( sizeof( data_t ) ) < sizeof( data_t ) ) {", "if( in.size( sizeof( data_t ) ) < sizeof( data_t ) - 1 ) {", ["C03"], "masked uintN rules read one byte beyond the end"),
+    ("m76-raise-ignores-custom-message", I + "normal.hpp",
+     "         if constexpr( internal::has_error_message< Rule > ) {\n            throw parse_error( Rule::error_message, in );", "         if constexpr( false ) {\n            throw parse_error( Rule::error_message, in );", ["C05"], "normal::raise uses the default message for a rule that has its own error_message"),
+    ("m77-require-polls-forever", I + "buffer_input.hpp",
+     "            if( r == 0 ) {\n               break;\n            }\n            m_end += r;", "            m_end += r;", ["C07"], "require() keeps calling the reader after it reported end of input (never returns)"),
+    ("m78-star-spins-on-empty-match", I + "internal/until.hpp",
+     "            if( in.empty() ) {\n               return false;\n            }\n            in.bump();", "            if( !in.empty() ) {\n               in.bump();\n            }", ["C02", "C03"], "until< R > spins at end of input instead of failing (no harness event inside the loop except rule attempts)"),
     ("m73-tracer-unwind-no-pop", I + "contrib/trace.hpp",
      "      void unwind( const ParseInput& in, States&&... /*unused*/ )\n      {\n         const auto prev = m_stack.back();\n         m_stack.pop_back();", "      void unwind( const ParseInput& in, States&&... /*unused*/ )\n      {\n         const auto prev = m_stack.back();", ["C08"], "tracer keeps the entry of an unwound rule on its stack"),
     ("m74-state-control-apply0-not-forwarded", I + "contrib/state_control.hpp",
@@ -285,6 +291,70 @@ def cmd_mutants(ids, runs):
     return 0 if not missed else 1
 
 
+# Property-preserving changes to taocpp/PEGTL: every check must stay quiet on them (specificity).
+EQUIVALENTS = [
+    ("q01-seq-single-rule-guarded", [(I + "internal/seq.hpp", "if constexpr( sizeof...( Rules ) == 1 ) {", "if constexpr( sizeof...( Rules ) == 0 ) {")],
+     "seq< R > takes the general path (own rewind guard, sub-rule entered with the next rewind mode)"),
+    ("q02-internal-seq-control-enabled", [(I + "internal/seq.hpp", "inline constexpr bool enable_control< seq< Rules... > > = false;", "inline constexpr bool enable_control< seq< Rules... > > = true;")],
+     "hooks are delivered for internal::seq as well"),
+    ("q03-discard-eager", [(I + "buffer_input.hpp", "if( m_current.data > m_buffer.get() + Chunk ) {", "if( m_current.data > m_buffer.get() ) {")],
+     "discard() moves the data whenever anything was consumed"),
+    ("q04-default-message-reworded", [(I + "normal.hpp", "throw parse_error( \"parse error matching \" + std::string( demangle< Rule >() ), in );", "throw parse_error( \"syntax error, expected \" + std::string( demangle< Rule >() ), in );"),
+                                      (I + "normal.hpp", "std::throw_with_nested( parse_error( \"parse error matching \" + std::string( demangle< Rule >() ), am ) );", "std::throw_with_nested( parse_error( \"syntax error, expected \" + std::string( demangle< Rule >() ), am ) );")],
+     "default global-failure message reworded (still names the rule)"),
+    ("q05-limit-messages-reworded", [(I + "contrib/check_bytes.hpp", "\"maximum allowed rule consumption exceeded\"", "\"rule consumed more than allowed\""),
+                                     (I + "contrib/limit_bytes.hpp", "error_message = \"maximum allowed rule consumption reached\"", "error_message = \"byte limit reached\""),
+                                     (I + "contrib/limit_depth.hpp", "error_message = \"maximum parser rule nesting depth exceeded\"", "error_message = \"nesting too deep\"")],
+     "custom messages of the limit facilities reworded"),
+    ("q06-require-fills-buffer", [(I + "buffer_input.hpp", "( std::min )( buffer_free_after_end(), ( std::max )( amount - buffer_occupied(), Chunk ) )", "buffer_free_after_end()")],
+     "require() always asks the reader for all the free space"),
+]
+
+
+def cmd_equivalents(ids, runs):
+    os.makedirs(SCRATCH, exist_ok=True)
+    allchecks = ["C02", "C03", "C05", "C07", "C08", "C12", "C13", "C18"]
+    bad = 0
+    out = []
+    for qid, edits, note in EQUIVALENTS:
+        if ids and not any(qid.startswith(i) for i in ids):
+            continue
+        root = os.path.join(SCRATCH, qid)
+        shutil.rmtree(root, ignore_errors=True)
+        os.makedirs(root)
+        shutil.copytree("/repo/include", os.path.join(root, "include"))
+        err = None
+        for path, old, new in edits:
+            fp = os.path.join(root, path)
+            txt = open(fp).read()
+            if txt.count(old) < 1:
+                err = f"pattern not found in {path}: {old[:60]}"
+                break
+            open(fp, "w").write(txt.replace(old, new, 1))
+        if err:
+            print(f"{qid}: SKIPPED ({err})", flush=True)
+            out.append({"id": qid, "status": "SKIPPED", "detail": err})
+            bad += 1
+            continue
+        t0 = time.time()
+        res = test_tree(root, allchecks, runs, qid)
+        alarms = {c: txt for c, (rc, txt) in res.items() if rc != 0}
+        status = "QUIET" if not alarms else "ALARM"
+        detail = "; ".join(f"{c}: " + " | ".join(l.strip()[:300] for l in txt.splitlines() if l.startswith("VIOLATION") or l.startswith("  C") or "BUILD FAILED" in l)[:700] for c, txt in alarms.items())
+        print(f"{qid}: {status} ({time.time() - t0:.0f}s) {note}\n    {detail}", flush=True)
+        out.append({"id": qid, "status": status, "note": note, "detail": detail})
+        if alarms:
+            bad += 1
+        else:
+            shutil.rmtree(root, ignore_errors=True)
+    path = os.path.join(VERIF, "selftest_equivalents.json")
+    old = []
+    if os.path.exists(path):
+        old = [m for m in json.load(open(path)) if m["id"] not in {o["id"] for o in out}]
+    json.dump(old + out, open(path, "w"), indent=1)
+    return 1 if bad else 0
+
+
 def cmd_determinism(n):
     build = os.path.join(VERIF, "build", "asan")
     bad = 0
@@ -358,6 +428,8 @@ if __name__ == "__main__":
         sys.exit(cmd_mutants(sys.argv[2:], int(os.environ.get("SELFTEST_RUNS", "400000"))))
     if sys.argv[1] == "determinism":
         sys.exit(cmd_determinism(int(sys.argv[2]) if len(sys.argv) > 2 else 20000))
+    if sys.argv[1] == "equivalents":
+        sys.exit(cmd_equivalents(sys.argv[2:], int(os.environ.get("SELFTEST_RUNS", "300000"))))
     if sys.argv[1] == "seeded":
         sys.exit(cmd_seeded(sys.argv[2:], int(os.environ.get("SELFTEST_RUNS", "400000"))))
     print(__doc__)
